@@ -1,4 +1,4 @@
-import Nv.Proofs.C14Routing
+import Nv.Proofs.C14Exec
 /-!
 C14 — property theorems for the serial executors (model: `Nv.Model.C14`).
 -/
@@ -52,9 +52,11 @@ theorem not_slot_in_range_absFirst : ¬ SlotOk slotAbsFirst := by
 cancellations and Stop (line, runner, pchan are one lane; a MultiLine is an array of them, below) -/
 
 section lane
-variable (cfg : Cfg) (k : Kind) (cap idx : Nat) (l : Lane) (hr : (laneLTS cfg k cap idx).Reach l)
-include hr
+variable (cfg : Cfg) (k : Kind) (cap idx : Nat) (hg : RunGuarded cfg k) (l : Lane)
+  (hr : (laneLTS cfg k cap idx).Reach l)
+include hg hr
 
+omit hg in
 theorem lane_static : l.kind = k ∧ l.idx = idx ∧ l.cap = cap := by
   induction hr with
   | init => exact ⟨rfl, rfl, rfl⟩
@@ -66,26 +68,26 @@ theorem lane_static : l.kind = k ∧ l.idx = idx ∧ l.cap = cap := by
 acceptance order (ids are issued in acceptance order, so: strictly increasing) -/
 theorem lane_start_order :
     (startIds l.log).Sublist l.accepted ∧ l.accepted.Pairwise (· < ·) ∧ (startIds l.log).Pairwise (· < ·) := by
-  have h := linv_reach cfg k cap idx l hr
+  have h := linv_reach cfg k cap idx hg l hr
   have hsub : (startIds l.log).Sublist l.accepted := by
     rw [h.acc_split]; exact h.starts_sub.trans (List.sublist_append_left _ _)
   exact ⟨hsub, h.acc_sorted, h.acc_sorted.sublist hsub⟩
 
 /-- `lane_at_most_once`: no call is started twice -/
 theorem lane_at_most_once : (startIds l.log).Nodup := by
-  have := (lane_start_order cfg k cap idx l hr).2.2
+  have := (lane_start_order cfg k cap idx hg l hr).2.2
   exact this.imp (fun h => Nat.ne_of_lt h)
 
 /-- `lane_serial`: on a lane, start and end events alternate — a call starts only while none runs, the
 call that ends is the one that runs — and the consumer's state is what the log says -/
 theorem lane_serial : runState (runEvents l.log) = some (consRunning l.cons) :=
-  (linv_reach cfg k cap idx l hr).run_state
+  (linv_reach cfg k cap idx hg l hr).run_state
 
 /-- the callee of a call returns at most once, and only after it was started -/
 theorem lane_end_once : finIds l.log ++ (consRunning l.cons).toList = startIds l.log ∧ (finIds l.log).Nodup := by
-  have h := (rinv_reach cfg k cap idx l hr).2.fin
+  have h := (rinv_reach cfg k cap idx hg l hr).2.fin
   refine ⟨h, ?_⟩
-  have hn := lane_at_most_once cfg k cap idx l hr
+  have hn := lane_at_most_once cfg k cap idx hg l hr
   unfold FinOk at h
   rw [← h] at hn
   exact (List.nodup_append.1 hn).1
@@ -96,23 +98,23 @@ rejection (`closed` only after Stop, `full`) — never another call's result -/
 theorem lane_result_routing (id : Nat) (r : Res) (h : Ev.ret id r ∈ l.log) :
     ((isCalleeRes r = true ∧ Ev.fin id r ∈ l.log ∧ ∀ r', Ev.fin id r' ∈ l.log → r' = r) ∨
      (r = .ctx ∧ Cancelled l.calls id) ∨ (r = .closed ∧ l.stopped = true) ∨ r = .full) := by
-  have hinv := rinv_reach cfg k cap idx l hr
+  have hinv := rinv_reach cfg k cap idx hg l hr
   rcases hinv.2.ret id r h with ⟨a, b⟩ | h2
   · left
     refine ⟨a, b, fun r' hr' => ?_⟩
-    exact fin_unique_aux l.log (lane_end_once cfg k cap idx l hr).2 id r' r hr' b
+    exact fin_unique_aux l.log (lane_end_once cfg k cap idx hg l hr).2 id r' r hr' b
   · exact Or.inr h2
 
 /-- the index handed to the callee is the lane's own -/
 theorem lane_index_passed (id ln : Nat) (h : Ev.start id ln ∈ l.log) : ln = idx := by
-  rw [(linv_reach cfg k cap idx l hr).idx_ok id ln h]
+  rw [(linv_reach cfg k cap idx hg l hr).idx_ok id ln h]
   exact (lane_static cfg k cap idx l hr).2.1
 
 /-- `stop_drains` (line, multi-line, runner queue): a consumer that has exited has taken every accepted
 call; for line / multi-line every accepted call was started exactly once, in order -/
 theorem stop_drains (hk : k ≠ .pchan) (he : l.cons = .exited) :
     l.queue = [] ∧ l.popped = l.accepted ∧ ((k = .line ∨ k = .mline) → startIds l.log = l.accepted) := by
-  have h := linv_reach cfg k cap idx l hr
+  have h := linv_reach cfg k cap idx hg l hr
   have hs := lane_static cfg k cap idx l hr
   have hq : l.queue = [] := (h.exited_drained he).2 (by rw [hs.1]; exact hk)
   have hp : l.popped = l.accepted := by rw [h.acc_split, hq, List.append_nil]
@@ -122,7 +124,7 @@ theorem stop_drains (hk : k ≠ .pchan) (he : l.cons = .exited) :
 /-- before the consumer exits, for line / multi-line: the started calls followed by the queued ones are
 exactly the accepted ones (nothing is lost, reordered or duplicated at any moment) -/
 theorem lane_nothing_lost (hkk : k = .line ∨ k = .mline) : startIds l.log ++ l.queue = l.accepted := by
-  have h := linv_reach cfg k cap idx l hr
+  have h := linv_reach cfg k cap idx hg l hr
   have hs := lane_static cfg k cap idx l hr
   rw [h.starts_eq (by rw [hs.1]; exact hkk), h.acc_split]
 
@@ -139,7 +141,7 @@ theorem stop_rejects_new (cfg : Cfg) (hc : Proved cfg) (l l' : Lane) (id : Nat) 
   rcases he with ⟨_, hw⟩ | ⟨r, e, hwhy⟩
   · rcases hw with hw | ⟨_, hw⟩
     · rw [hst] at hw; cases hw
-    · exact absurd hc hw
+    · exact absurd hc.1 hw
   · subst e
     refine ⟨rfl, rfl, ?_⟩
     -- the reason is `closed`: `full` is answered only by an open lane
@@ -152,7 +154,7 @@ theorem stop_rejects_new (cfg : Cfg) (hc : Proved cfg) (l l' : Lane) (id : Nat) 
         · cases hs
         · split at hs
           · simp only [hst, Bool.not_true, Bool.false_eq_true, if_false] at hs
-            rw [hc] at hs
+            rw [hc.1] at hs
             simp only [Option.some.injEq] at hs
             have := congrArg Lane.log hs
             simp [Lane.reject] at this
@@ -165,24 +167,24 @@ theorem stop_rejects_new (cfg : Cfg) (hc : Proved cfg) (l l' : Lane) (id : Nat) 
 /-- today's accept path of `ProcChan` (`racyThreeWaySelect`): a stopped ProcChan whose consumer is still
 busy takes a new call into its channel, and the consumer then executes it — after `Stop` returned -/
 theorem witness_pchan_accepts_after_stop :
-    (laneLTS ⟨.racyThreeWaySelect⟩ .pchan 2 0).run (Lane.init .pchan 2 0)
-      [.submit 0 true, .pop true, .stop, .recv 0 2, .submit 1 true, .finish 0 (.ok 1), .pop true] =
-    some { kind := .pchan, cap := 2, idx := 0, stopped := true, queue := [], cons := .running 1,
+    (laneLTS ⟨.racyThreeWaySelect, .once⟩ .pchan 2 0).run (Lane.init .pchan 2 0)
+      [.run, .submit 0 true, .pop true, .stop, .recv 0 2, .submit 1 true, .finish 0 (.ok 1), .pop true] =
+    some { kind := .pchan, cap := 2, idx := 0, stopped := true, queue := [], started := true, cons := .running 1, cons2 := none,
            calls := [⟨0, false, false, some (.ok 1)⟩, ⟨1, false, true, none⟩], next := 2,
            log := [.start 0 0, .ret 0 .closed, .fin 0 (.ok 1), .start 1 0], accepted := [0, 1], popped := [0, 1] } := by
   decide
 
 theorem not_stop_rejects_new_racy :
     ¬ (∀ (l l' : Lane) (id : Nat) (enq : Bool), l.stopped = true →
-        l.step ⟨.racyThreeWaySelect⟩ (.submit id enq) = some l' → l'.accepted = l.accepted) := by
+        l.step ⟨.racyThreeWaySelect, .once⟩ (.submit id enq) = some l' → l'.accepted = l.accepted) := by
   intro h
   have := h { Lane.init .pchan 2 0 with stopped := true } _ 0 true rfl rfl
   simp [Lane.accept, Lane.init] at this
 
 /-- the repaired accept path on the same schedule: the call is turned away -/
-example : (laneLTS ⟨.stopFirst⟩ .pchan 2 0).run (Lane.init .pchan 2 0)
-      [.submit 0 true, .pop true, .stop, .recv 0 2, .submit 1 true] =
-    some { kind := .pchan, cap := 2, idx := 0, stopped := true, queue := [], cons := .running 0,
+example : (laneLTS ⟨.stopFirst, .once⟩ .pchan 2 0).run (Lane.init .pchan 2 0)
+      [.run, .submit 0 true, .pop true, .stop, .recv 0 2, .submit 1 true] =
+    some { kind := .pchan, cap := 2, idx := 0, stopped := true, queue := [], started := true, cons := .running 0, cons2 := none,
            calls := [⟨0, false, false, none⟩, ⟨1, false, false, none⟩], next := 2,
            log := [.start 0 0, .ret 0 .closed, .ret 1 .closed], accepted := [0], popped := [0] } := by
   decide
@@ -199,16 +201,17 @@ theorem lane_terminates_decreases (cfg : Cfg) (l l' : Lane) (take : Bool) (_hst 
     split <;> simp [Lane.remaining, hc, hq]
 
 /-- part 2: a stopped lane's idle consumer is never parked — its next iteration is enabled -/
-theorem lane_terminates_not_stuck (cfg : Cfg) (l : Lane) (hst : l.stopped = true) (hc : l.cons = .idle) :
-    ∃ l', l.step cfg (.pop true) = some l' := by
-  simp only [Lane.step, hc]
+theorem lane_terminates_not_stuck (cfg : Cfg) (l : Lane) (hst : l.stopped = true) (hrun : l.started = true)
+    (hc : l.cons = .idle) : ∃ l', l.step cfg (.pop true) = some l' := by
+  simp only [Lane.step, hc, hrun]
   cases hq : l.queue with
   | nil => simp [hst]
   | cons c rest => simp
 
 /-- part 3: nothing else adds work to a stopped lane (for the configurations in `Proved`) -/
 theorem lane_terminates_no_new_work (cfg : Cfg) (hcfg : Proved cfg) (l l' : Lane) (a : LAct)
-    (hst : l.stopped = true) (hs : l.step cfg a = some l') : l'.remaining ≤ l.remaining ∧ l'.stopped = true := by
+    (hst : l.stopped = true) (h2 : l.cons2 = none) (hs : l.step cfg a = some l') :
+    l'.remaining ≤ l.remaining ∧ l'.stopped = true := by
   cases a with
   | submit id enq =>
     have h := stop_rejects_new cfg hcfg l l' id enq hst hs
@@ -216,7 +219,7 @@ theorem lane_terminates_no_new_work (cfg : Cfg) (hcfg : Proved cfg) (l l' : Lane
     rcases he with ⟨_, hw⟩ | ⟨r, e, _⟩
     · rcases hw with hw | ⟨_, hw⟩
       · rw [hst] at hw; cases hw
-      · exact absurd hcfg hw
+      · exact absurd hcfg.1 hw
     · subst e; exact ⟨by simp [Lane.remaining, Lane.reject], hst⟩
   | pop take =>
     refine ⟨Nat.le_of_lt (lane_terminates_decreases cfg l l' take hst hs), ?_⟩
@@ -225,13 +228,16 @@ theorem lane_terminates_no_new_work (cfg : Cfg) (hcfg : Proved cfg) (l l' : Lane
     · subst e; exact hst
     · subst e; rw [(take_static l c rest).2.2.2.1]; exact hst
   | finish id r =>
-    obtain ⟨hc, _, e⟩ := finish_effect cfg l l' id r hs
+    obtain ⟨hc, _, e⟩ := finish_effect cfg l l' id r h2 hs
     subst e; exact ⟨by simp [Lane.remaining, hc], hst⟩
   | recv id pick =>
     obtain ⟨c, r, _, _, e, _⟩ := recv_effect cfg l l' id pick hs
     subst e; exact ⟨by simp [Lane.remaining], hst⟩
   | cancel id => rw [cancel_effect cfg l l' id hs]; exact ⟨by simp [Lane.remaining], hst⟩
   | stop => rw [stop_effect cfg l l' hs]; exact ⟨by simp [Lane.remaining], rfl⟩
+  | run =>
+    rcases run_effect cfg l l' hs with e | e | ⟨e, _, _⟩ <;> subst e <;> exact ⟨by simp [Lane.remaining], hst⟩
+  | pop2 => rw [pop2_disabled cfg l h2] at hs; cases hs
 
 /-! ### the oracle's quiescent closure only takes transitions of the lane machine -/
 
@@ -261,7 +267,10 @@ theorem settle_reach (cfg : Cfg) (k : Kind) (cap idx : Nat) : ∀ (n : Nat) (l :
       · split at h
         · rename_i l1 h1
           exact settle_reach cfg k cap idx n l1 (LTS.Reach.step (m := laneLTS cfg k cap idx) (a := .pop true) hr h1) l' h
-        · simp at h; subst h; exact hr
+        · split at h
+          · rename_i l1 h1
+            exact settle_reach cfg k cap idx n l1 (LTS.Reach.step (m := laneLTS cfg k cap idx) (a := .pop2) hr h1) l' h
+          · simp at h; subst h; exact hr
 
 /-! ### the executor: lanes addressed through the slot kernel -/
 
@@ -290,16 +299,28 @@ theorem mkLanes_getElem (k : Kind) (cap : Nat) : ∀ (n i : Nat) (l : Lane),
       subst hin
       exact ⟨h.symm, by omega⟩
 
-theorem stopAll_getElem (cfg : Cfg) : ∀ (ls : List Lane) (i : Nat) (l' : Lane),
-    (stopAll cfg ls)[i]? = some l' → ∃ l, ls[i]? = some l ∧ l.step cfg .stop = some l'
-  | [], i, l', h => by simp [stopAll] at h
+theorem allLanes_getElem (cfg : Cfg) (a : LAct) (ha : ∀ l : Lane, (l.step cfg a).isSome) :
+    ∀ (ls : List Lane) (i : Nat) (l' : Lane),
+    (allLanes cfg a ls)[i]? = some l' → ∃ l, ls[i]? = some l ∧ l.step cfg a = some l'
+  | [], i, l', h => by simp [allLanes] at h
   | l :: ls, 0, l', h => by
-    simp only [stopAll, Lane.step, List.getElem?_cons_zero, Option.some.injEq] at h
-    exact ⟨l, rfl, by simp [Lane.step, h]⟩
+    simp only [allLanes, List.getElem?_cons_zero, Option.some.injEq] at h
+    refine ⟨l, rfl, ?_⟩
+    have := ha l
+    cases hst : l.step cfg a with
+    | none => rw [hst] at this; cases this
+    | some l1 => rw [hst] at h; simp only at h; rw [h]
   | l :: ls, i + 1, l', h => by
-    simp only [stopAll, List.getElem?_cons_succ] at h
-    obtain ⟨l0, h0, h1⟩ := stopAll_getElem cfg ls i l' h
+    simp only [allLanes, List.getElem?_cons_succ] at h
+    obtain ⟨l0, h0, h1⟩ := allLanes_getElem cfg a ha ls i l' h
     exact ⟨l0, by simpa using h0, h1⟩
+
+theorem stop_enabled (cfg : Cfg) (l : Lane) : (l.step cfg .stop).isSome := by simp [Lane.step]
+theorem run_enabled (cfg : Cfg) (l : Lane) : (l.step cfg .run).isSome := by
+  simp only [Lane.step]
+  split
+  · rfl
+  · split <;> rfl
 
 /-- every lane of a reachable executor state is a reachable state of the one-lane machine with that index:
 all lane theorems above hold for every lane of a `MultiLine`, under every schedule -/
@@ -359,15 +380,17 @@ theorem exec_lanes_reach (cfg : Cfg) (slot : Slot) (k : Kind) (nlanes cap : Nat)
       simp only [execLTS, Exec.step, Option.some.injEq] at hstep
       subst hstep
       refine ⟨hk, hn, fun j l hj => ?_⟩
-      obtain ⟨l0, h0, h1⟩ := stopAll_getElem cfg s.lanes j l hj
+      obtain ⟨l0, h0, h1⟩ := allLanes_getElem cfg .stop (stop_enabled cfg) s.lanes j l hj
       exact LTS.Reach.step (m := laneLTS cfg k cap j) (a := .stop) (hl j l0 h0) h1
+    | run =>
+      simp only [execLTS, Exec.step, Option.some.injEq] at hstep
+      subst hstep
+      refine ⟨hk, hn, fun j l hj => ?_⟩
+      obtain ⟨l0, h0, h1⟩ := allLanes_getElem cfg .run (run_enabled cfg) s.lanes j l hj
+      exact LTS.Reach.step (m := laneLTS cfg k cap j) (a := .run) (hl j l0 h0) h1
 
-/-- `slot_stable` + the index clause: the lane of a call depends on its hash (and the lane count) only, so
-equal hashes share a lane; a callee that runs in lane i was handed index i; and for an in-range kernel
-every hash — negative ones and the minimum integer included — has a lane below the lane count -/
-theorem slot_stable (slot : Slot) (k : Kind) (n : Nat) (h1 h2 : BitVec 64) (h : h1 = h2) :
-    laneOf slot k n h1 = laneOf slot k n h2 := by rw [h]
-
+/-- for an in-range kernel every hash — negative ones and the minimum integer included — has a lane below the
+lane count (where a call with that hash then runs: `exec_start_lane_of_hash` below) -/
 theorem toInt_ofNat_small (n : Nat) (h : n < 2^63) : (BitVec.ofNat 64 n).toInt = (n : Int) := by
   have h1 : (BitVec.ofNat 64 n).toNat = n := by simp [BitVec.toNat_ofNat]; omega
   rw [BitVec.toInt_eq_toNat_of_lt (by omega), h1]
@@ -381,13 +404,185 @@ theorem slot_lane_exists (slot : Slot) (hs : SlotOk slot) (n : Nat) (hn : 0 < n)
   simp only [laneOf, beq_self_eq_true, if_true]
   rw [if_pos this]
 
-theorem exec_index_passed (cfg : Cfg) (slot : Slot) (k : Kind) (nlanes cap : Nat) (x : Exec)
+theorem exec_index_passed (cfg : Cfg) (slot : Slot) (k : Kind) (nlanes cap : Nat) (hg : RunGuarded cfg k) (x : Exec)
     (hr : (execLTS cfg slot k nlanes cap).Reach x) (i : Nat) (l : Lane) (hl : x.lanes[i]? = some l)
     (id ln : Nat) (h : Ev.start id ln ∈ l.log) : ln = i :=
-  lane_index_passed cfg k cap i l ((exec_lanes_reach cfg slot k nlanes cap x hr).2.2 i l hl) id ln h
+  lane_index_passed cfg k cap i hg l ((exec_lanes_reach cfg slot k nlanes cap x hr).2.2 i l hl) id ln h
 
 /-- today's kernel: the minimum integer has no lane on 509 lanes (`qs[-151]` panics) -/
 theorem witness_laneOf_minInt : laneOf slotAbsFirst .mline 509 (BitVec.intMin 64) = none := by decide
 example : laneOf slotRemFirst .mline 509 (BitVec.intMin 64) = some 151 := by decide
+
+
+/-! ### audit follow-up: Run twice, accepted calls, hash ↦ lane, Stop composed over runs -/
+
+/-- an unguarded `MultiLine.Run` called twice: two consumers on one lane start two calls with no end in between —
+the run discipline is broken (`runState = none`) -/
+theorem witness_mline_run_twice_overlap :
+    ((laneLTS ⟨.stopFirst, .unguarded⟩ .mline 0 0).run (Lane.init .mline 0 0)
+      [.run, .run, .submit 0 true, .submit 1 true, .pop true, .pop2]).map
+        (fun l => (l.log, runState (runEvents l.log))) = some ([.start 0 0, .start 1 0], none) := by decide
+
+theorem not_lane_serial_unguarded :
+    ¬ (∀ l, (laneLTS ⟨.stopFirst, .unguarded⟩ .mline 0 0).Reach l → (runState (runEvents l.log)).isSome = true) := by
+  intro h
+  have hrun : (laneLTS ⟨.stopFirst, .unguarded⟩ .mline 0 0).run (Lane.init .mline 0 0)
+      [.run, .run, .submit 0 true, .submit 1 true, .pop true, .pop2] = some
+      { kind := .mline, cap := 0, idx := 0, stopped := false, queue := [], started := true, cons := .running 0,
+        cons2 := some (.running 1), calls := [⟨0, false, true, none⟩, ⟨1, false, true, none⟩], next := 2,
+        log := [.start 0 0, .start 1 0], accepted := [0, 1], popped := [0, 1] } := by decide
+  have := h _ (LTS.reach_of_run _ _ _ _ LTS.Reach.init hrun)
+  revert this; decide
+
+/-- with the guard a second `Run` changes nothing -/
+example : (laneLTS ⟨.stopFirst, .once⟩ .mline 0 0).run (Lane.init .mline 0 0) [.run, .run] =
+    (laneLTS ⟨.stopFirst, .once⟩ .mline 0 0).run (Lane.init .mline 0 0) [.run] := by decide
+
+/-- `lane_result_routing` for accepted calls: the caller of a call that was ACCEPTED gets the value its own callee
+returned, or its own context's error, or — ProcChan only — `closed` once the lane is stopped; never `full`,
+never `closed` from a queue, never another call's value -/
+theorem lane_result_routing_accepted (cfg : Cfg) (k : Kind) (cap idx : Nat) (hg : RunGuarded cfg k) (l : Lane)
+    (hr : (laneLTS cfg k cap idx).Reach l) (id : Nat) (r : Res) (hacc : id ∈ l.accepted) (h : Ev.ret id r ∈ l.log) :
+    (isCalleeRes r = true ∧ Ev.fin id r ∈ l.log ∧ ∀ r', Ev.fin id r' ∈ l.log → r' = r) ∨
+    (r = .ctx ∧ Cancelled l.calls id) ∨ (r = .closed ∧ l.stopped = true ∧ k = .pchan) := by
+  have ha := ainv_reach cfg k cap idx hg l hr
+  have hk := (lane_static cfg k cap idx l hr).1
+  rcases lane_result_routing cfg k cap idx hg l hr id r h with h1 | h1 | ⟨h1, h2⟩ | h1
+  · exact Or.inl h1
+  · exact Or.inr (Or.inl h1)
+  · subst h1
+    rcases ha.closed_rejected id h with h3 | h3
+    · exact absurd hacc h3
+    · exact Or.inr (Or.inr ⟨rfl, h2, by rw [← hk]; exact h3⟩)
+  · subst h1; exact absurd hacc (ha.full_rejected id h)
+
+theorem einv_reach (cfg : Cfg) (slot : Slot) (k : Kind) (nlanes cap : Nat) (x : Exec)
+    (hr : (execLTS cfg slot k nlanes cap).Reach x) : EInv slot x := by
+  induction hr with
+  | init => exact einv_init slot k nlanes cap
+  | step _ hstep ih => exact einv_step cfg slot _ _ _ ih hstep
+
+theorem start_mem_accepted (cfg : Cfg) (k : Kind) (cap idx : Nat) (hg : RunGuarded cfg k) (l : Lane)
+    (hr : (laneLTS cfg k cap idx).Reach l) (id ln : Nat) (h : Ev.start id ln ∈ l.log) : id ∈ l.accepted :=
+  (lane_start_order cfg k cap idx hg l hr).1.subset (mem_startIds.2 ⟨ln, h⟩)
+
+/-- `slot_stable`, the real statement: a call submitted with hash h starts — if it starts — in lane
+`slot(h, lanes)` and is handed exactly that index, under every schedule -/
+theorem exec_start_lane_of_hash (cfg : Cfg) (slot : Slot) (k : Kind) (nlanes cap : Nat) (hg : RunGuarded cfg k)
+    (x : Exec) (hr : (execLTS cfg slot k nlanes cap).Reach x) (i : Nat) (l : Lane) (hl : x.lanes[i]? = some l)
+    (id ln : Nat) (hs : Ev.start id ln ∈ l.log) (h : BitVec 64) (hh : (id, h) ∈ x.hashes) :
+    laneOf slot k nlanes h = some i ∧ ln = i := by
+  obtain ⟨hk, hn, hlanes⟩ := exec_lanes_reach cfg slot k nlanes cap x hr
+  have he := einv_reach cfg slot k nlanes cap x hr
+  have hacc := start_mem_accepted cfg k cap i hg l (hlanes i l hl) id ln hs
+  obtain ⟨h', hm, hlane⟩ := he.acc_hash i l hl id hacc
+  rw [he.hash_fun id h h' hh hm, ← hk, ← hn]
+  exact ⟨hlane, lane_index_passed cfg k cap i hg l (hlanes i l hl) id ln hs⟩
+
+/-- calls with equal hash run on the same lane -/
+theorem exec_equal_hash_same_lane (cfg : Cfg) (slot : Slot) (k : Kind) (nlanes cap : Nat) (hg : RunGuarded cfg k)
+    (x : Exec) (hr : (execLTS cfg slot k nlanes cap).Reach x) (i j : Nat) (li lj : Lane)
+    (hi : x.lanes[i]? = some li) (hj : x.lanes[j]? = some lj) (a b la lb : Nat) (h : BitVec 64)
+    (ha : (a, h) ∈ x.hashes) (hb : (b, h) ∈ x.hashes)
+    (hsa : Ev.start a la ∈ li.log) (hsb : Ev.start b lb ∈ lj.log) : i = j ∧ la = lb := by
+  have h1 := exec_start_lane_of_hash cfg slot k nlanes cap hg x hr i li hi a la hsa h ha
+  have h2 := exec_start_lane_of_hash cfg slot k nlanes cap hg x hr j lj hj b lb hsb h hb
+  have : i = j := Option.some.inj (h1.1.symm.trans h2.1)
+  exact ⟨this, by rw [h1.2, h2.2, this]⟩
+
+/-- at most once across ALL lanes: a call starts in at most one lane (and there at most once: `lane_at_most_once`) -/
+theorem exec_at_most_once (cfg : Cfg) (slot : Slot) (k : Kind) (nlanes cap : Nat) (hg : RunGuarded cfg k)
+    (x : Exec) (hr : (execLTS cfg slot k nlanes cap).Reach x) (i j : Nat) (li lj : Lane)
+    (hi : x.lanes[i]? = some li) (hj : x.lanes[j]? = some lj) (id la lb : Nat)
+    (hsa : Ev.start id la ∈ li.log) (hsb : Ev.start id lb ∈ lj.log) :
+    i = j ∧ (startIds li.log).Nodup := by
+  obtain ⟨_, _, hlanes⟩ := exec_lanes_reach cfg slot k nlanes cap x hr
+  have he := einv_reach cfg slot k nlanes cap x hr
+  obtain ⟨h1, hm1, hl1⟩ := he.acc_hash i li hi id (start_mem_accepted cfg k cap i hg li (hlanes i li hi) id la hsa)
+  obtain ⟨h2, hm2, hl2⟩ := he.acc_hash j lj hj id (start_mem_accepted cfg k cap j hg lj (hlanes j lj hj) id lb hsb)
+  rw [he.hash_fun id h1 h2 hm1 hm2] at hl1
+  exact ⟨Option.some.inj (hl1.symm.trans hl2), lane_at_most_once cfg k cap i hg li (hlanes i li hi)⟩
+
+/-! #### Stop, composed: every run of the consumer side from a stopped lane is short, and where it can go no
+further the lane has exited having executed every accepted call exactly once, in order -/
+
+/-- what the consumer side can do: loop iterations and callee returns -/
+def consumerAct : LAct → Bool
+  | .pop _ => true
+  | .finish _ r => isCalleeRes r
+  | _ => false
+
+def Lane.work (l : Lane) : Nat := 2 * l.remaining + (match l.cons with | .running _ => 1 | _ => 0)
+
+/-- nothing is left for the consumer side -/
+def Lane.final (cfg : Cfg) (l : Lane) : Prop :=
+  l.step cfg (.pop true) = none ∧ ∀ id, l.step cfg (.finish id (.ok 0)) = none
+
+theorem consumer_step (cfg : Cfg) (l l' : Lane) (a : LAct) (hst : l.stopped = true) (h2 : l.cons2 = none)
+    (ha : consumerAct a = true) (hs : l.step cfg a = some l') :
+    l'.work < l.work ∧ l'.stopped = true ∧ l'.accepted = l.accepted ∧ l'.started = l.started := by
+  have hacc := step_accepted cfg l l' a hs (by intro id enq e; subst e; simp [consumerAct] at ha)
+  cases a with
+  | pop take =>
+    obtain ⟨hc, he⟩ := pop_effect cfg l l' take hs
+    rcases he with ⟨e, _, _⟩ | ⟨c, rest, hq, e⟩
+    · subst e; exact ⟨by simp [Lane.work, Lane.remaining, Lane.doExit, hc], hst, hacc, rfl⟩
+    · subst e
+      refine ⟨?_, by rw [(take_static l c rest).2.2.2.1]; exact hst, hacc, ?_⟩
+      · unfold Lane.take
+        split <;> simp [Lane.work, Lane.remaining, hc, hq] <;> omega
+      · unfold Lane.take; split <;> rfl
+  | finish id r =>
+    obtain ⟨hc, _, e⟩ := finish_effect cfg l l' id r h2 hs
+    subst e; exact ⟨by simp [Lane.work, Lane.remaining, hc], hst, hacc, rfl⟩
+  | submit id enq => simp [consumerAct] at ha
+  | recv id pick => simp [consumerAct] at ha
+  | cancel id => simp [consumerAct] at ha
+  | stop => simp [consumerAct] at ha
+  | run => simp [consumerAct] at ha
+  | pop2 => simp [consumerAct] at ha
+
+theorem consumer_run (cfg : Cfg) (k : Kind) (cap idx : Nat) (hg : RunGuarded cfg k) :
+    ∀ (as : List LAct) (l l' : Lane), (laneLTS cfg k cap idx).Reach l → l.stopped = true →
+      (∀ a ∈ as, consumerAct a = true) → (laneLTS cfg k cap idx).run l as = some l' →
+      as.length + l'.work ≤ l.work ∧ l'.stopped = true ∧ l'.accepted = l.accepted ∧ l'.started = l.started
+  | [], l, l', _, hst, _, hrun => by
+    simp [LTS.run] at hrun; subst hrun; exact ⟨by simp, hst, rfl, rfl⟩
+  | a :: as, l, l', hr, hst, hall, hrun => by
+    simp only [LTS.run] at hrun
+    split at hrun
+    · cases hrun
+    · rename_i l1 h1
+      have hi := linv_reach cfg k cap idx hg l hr
+      have hstep := consumer_step cfg l l1 a hst hi.cons2_none (hall a (by simp)) h1
+      have ih := consumer_run cfg k cap idx hg as l1 l' (LTS.Reach.step (m := laneLTS cfg k cap idx) (a := a) hr h1)
+        hstep.2.1 (fun b hb => hall b (by simp [hb])) hrun
+      refine ⟨by simp only [List.length_cons]; omega, ih.2.1, ih.2.2.1.trans hstep.2.2.1, ih.2.2.2.trans hstep.2.2.2⟩
+
+/-- `stop_completes`: from a reachable, started, stopped lane (line / multi-line / runner queue), every run of
+consumer iterations and callee returns has at most `2·(backlog+1)+1` steps, and when it can go no further the
+consumer has exited, the queue is empty, nothing was accepted meanwhile, every accepted call was taken — and for
+line / multi-line started exactly once, in acceptance order. -/
+theorem stop_completes (cfg : Cfg) (k : Kind) (cap idx : Nat) (hg : RunGuarded cfg k) (hk : k ≠ .pchan)
+    (l l' : Lane) (hr : (laneLTS cfg k cap idx).Reach l) (hst : l.stopped = true) (hrun : l.started = true)
+    (as : List LAct) (hall : ∀ a ∈ as, consumerAct a = true) (h : (laneLTS cfg k cap idx).run l as = some l') :
+    as.length ≤ l.work ∧
+    (l'.final cfg → l'.cons = .exited ∧ l'.queue = [] ∧ l'.accepted = l.accepted ∧ l'.popped = l'.accepted ∧
+      ((k = .line ∨ k = .mline) → startIds l'.log = l'.accepted ∧ (startIds l'.log).Pairwise (· < ·))) := by
+  have hc := consumer_run cfg k cap idx hg as l l' hr hst hall h
+  have hr' := LTS.reach_of_run _ as l l' hr h
+  refine ⟨by omega, fun hfin => ?_⟩
+  have hex : l'.cons = .exited := by
+    cases hcons : l'.cons with
+    | exited => rfl
+    | idle =>
+      obtain ⟨l2, h2⟩ := lane_terminates_not_stuck cfg l' hc.2.1 (by rw [hc.2.2.2]; exact hrun) hcons
+      rw [hfin.1] at h2; cases h2
+    | running c =>
+      have := hfin.2 c
+      simp [Lane.step, hcons, isCalleeRes] at this
+  have hd := stop_drains cfg k cap idx hg l' hr' hk hex
+  refine ⟨hex, hd.1, hc.2.2.1, hd.2.1, fun hkk => ⟨hd.2.2 hkk, ?_⟩⟩
+  exact (lane_start_order cfg k cap idx hg l' hr').2.2
 
 end Nv.C14
